@@ -19,6 +19,7 @@ SPEC = {
         'typed decoding consumes the bytes decoding into interface{} consumes (the wire models have one decode parser; the typed drivers calls are modelled as functions of the decoded tree, Generic/Dec.v); checked on the implementation by the seq stream (NumBytesRead after typed / naked / Raw / struct-with-unknown-fields positions)',
         'the bytes nextValueBytes returns are the input bytes the walker passed (reader recording: bytesDecReader z.b[z.r:z.c], ioDecReader buf): modelled as [capture] for cbor/msgpack/binc, explicit in the simple model; checked by the Raw-bytes oracle on both transports',
         'cbor: C11_cbor_seq covers every item lib_supports_t admits (times only in the RFC 3339 form, UTC year 0..9999); the tag-1 float form of a non-zero time is covered by the harness only',
+        'the wire models pass the nesting depth DOWN as a function argument (Msgpack.skip_at D depth0, Simple.nvb D fuel depth, Binc.skip o rf lf dep, Cbor.skip D f d) and never return it, so a walker arm that forgets depthDecr is not expressible in them: depth balance per call holds by construction of the models and cannot be stated as a theorem without threading the counter as state in the wire files; the implementation side of that balance is checked by the long stream (ONE Decoder, 60..2500 records with the container family in skipped / Raw positions, lowered and default MaxDepth)',
         'wire models hand written, tied by their own checks (Wcbor, Wmsgpack, Wsimple, Wbinc) and here by the model stream (sequences on one Encoder / one Decoder)',
         'json: C11_json_skip_partial / C11_json_raw_partial / C11_json_seq_partial are stated for the C09 leaf c09_leaf_of O; the string and integer laws are discharged from the C09 theorems (Wire/JsonLeaf.v c09_leaf_laws); the remaining hypothesis is float_time_laws: strconv shortest float formatting, parseFloat64 on the texts the encoder writes and the RFC 3339 time text (oracle, not modelled); on the implementation the json half is checked by the direct oracle (seq stream), the json wire correspondence is Wjson\'s',
     ],
